@@ -137,6 +137,24 @@ func (x *Exec) stdlib(fr *Frame, ins ssa.Instruction, fn *ssa.Function, args []V
 		x.assume(ts.And(x.w.bvsle(ts.BV(0, 64), n), x.w.bvsle(n, x.w.sLen(buf))))
 		x.assume(ts.Implies(ts.Eq(e, x.w.ifaceNil()), ts.Eq(n, x.w.sLen(buf))))
 		return Tuple{n, e}, true
+	case "strings.Fields":
+		// at most one field per byte of the input
+		s := args[0].(*Term)
+		r := x.havocResult(st, "fields", fn.Signature.Results()).(*Term)
+		x.assume(x.w.bvule(x.w.sLen(r), x.w.strLen(s)))
+		x.note("trusted: len(strings.Fields(s)) <= len(s)")
+		return r, true
+	case "(*strings.Builder).Grow":
+		n := args[1].(*Term)
+		x.safety(st, "pre", ins, "Builder.Grow(n)", x.w.bvsle(ts.BV(0, 64), n))
+		x.allocSize(st, ins, n, 1)
+		x.note("trusted: strings.Builder.Grow panics only for a negative count (and allocates n bytes)")
+		return nil, true
+	case "(*strings.Builder).WriteString", "(*strings.Builder).WriteByte", "(*strings.Builder).WriteRune", "(*strings.Builder).Write":
+		x.note("trusted: strings.Builder write methods do not panic and return a nil error")
+		return x.havocResult(st, "sbw", fn.Signature.Results()), true
+	case "(*strings.Builder).String", "(*strings.Builder).Len":
+		return x.havocResult(st, "sbs", fn.Signature.Results()), true
 	case "sort.Slice", "sort.SliceStable":
 		// less(i, j) is called an unknown number of times with in-range indexes:
 		// its body is checked once for arbitrary i, j in a state in which
@@ -187,6 +205,12 @@ func (x *Exec) stdlib(fr *Frame, ins ssa.Instruction, fn *ssa.Function, args []V
 		okc := ts.And(x.w.bvsle(ts.BV(0, 64), cnt),
 			ts.Or(ts.Eq(ln, ts.BV(0, 64)), x.w.bvsle(cnt, x.bvOp("bvsdiv", maxInt, ln))))
 		x.safety(st, "pre", ins, name+"(count, length)", okc)
+		if x.allocChecked && x.allocLimit != 0 && x.specDepth == 0 {
+			// the result must not be larger than the size limit
+			lim := ts.BV(x.allocLimit, 64)
+			x.safety(st, "alloc", ins, name+"(result length)", ts.Or(ts.Eq(ln, ts.BV(0, 64)), ts.Eq(cnt, ts.BV(0, 64)),
+				ts.And(x.w.bvsle(cnt, lim), x.w.bvsle(ln, lim), x.w.bvsle(cnt, x.bvOp("bvsdiv", lim, ln)))))
+		}
 		x.note("trusted: %s panics only for a negative count or an overflowing result length", name)
 		if a.sort == SStr {
 			r := x.w.Fresh("repeated", SStr)
